@@ -98,6 +98,8 @@ def check(ctx):
         ctx.undecided('SIB', 'unpack_sections / unpack_lots agree on the range skeleton', 'one skeleton not recognised')
     ctx.attempt(_routes)
     ctx.attempt(_sibling_through)
+    from .c06 import ilots_after_l          # 'integer lot numbers' of the statement
+    ctx.attempt(ilots_after_l)
     unp = [f for f in ctx.repo.funcs.values() if f.module.name.endswith('unpack.unpackers')]
     if common.flag_drops(ctx, unp) == 0:
         ctx.ok('RX-FLAGS', 'unpackers: no compiled regex is re-applied by its bare pattern text')
@@ -227,6 +229,23 @@ def _range_algebra(ctx, fi, kind):
     q = fi.qualname
     order_var, start, end = _order_info(fi)
     if order_var is None:
+        # positive evidence: an order flag that guards the range bounds but
+        # compares one bound with something that is not a plain bound
+        for a_ in walk_local(fi.node):
+            if isinstance(a_, ast.Assign) and isinstance(a_.targets[0], ast.Name) and isinstance(a_.value, ast.Compare) \
+                    and len(a_.value.ops) == 1 and isinstance(a_.value.ops[0], (ast.Lt, ast.LtE, ast.Gt, ast.GtE)):
+                sides = [a_.value.left, a_.value.comparators[0]]
+                flag = a_.targets[0].id
+                used = any(isinstance(i_, ast.If) and flag in {x.id for x in ast.walk(i_.test) if isinstance(x, ast.Name)}
+                           and any(isinstance(y, ast.Tuple) for b_ in i_.body for y in ast.walk(b_))
+                           for i_ in walk_local(fi.node))
+                odd = [s_ for s_ in sides if not isinstance(s_, ast.Name)]
+                if used and len(odd) == 1 and isinstance(odd[0], (ast.Subscript, ast.Attribute, ast.Call)):
+                    ctx.violation('RANGE', f"{q}: the order test compares the two ends of the range being expanded",
+                                  f"`{norm(a_)}` compares one end of the range with `{norm(odd[0])}` (an element of the list "
+                                  f"built so far), not with the other end: whether 'Lots 5 - 3, 9' counts as descending "
+                                  f"depends on the neighbouring item", key=f"RANGE|{q}|order-operands", where=common.loc(fi, a_))
+                    return None
         ctx.undecided('RANGE', f"{q}: range algebra", 'no `order = start < end` comparison recognised')
         return None
     calls = [c for c in walk_local(fi.node) if isinstance(c, ast.Call) and dotted(c.func) == 'range'
